@@ -51,6 +51,9 @@ CHECKS = {
  "C13": ("exploration", "history monitor over recorded cache_read / cache_write / download events",
          "Histories of runs sharing one cache (in-memory, or a real CsvRatesCache directory) are executed with instrumented cache and remote wrappers; every look-up must equal the no-cache reference answer for that run's data, a year may be downloaded at most once per run, and a look-up whose needed dates are certainly in the cache (an earlier download happened after them) must cause no download unless forced.",
          "Remote data is monotone over a history (published rates never disappear) and contains everything published before each run's date, as the statement requires.", "C13"),
+ "C14": ("fault_enumeration", "crash-state enumeration from a recorded syscall log (strace) + real kill injection to validate the model",
+         "The real cache write is traced with strace; from the log (whatever the write procedure is) every process-kill state (syscall boundaries and byte cuts inside each write) and power-loss state (prefixes of un-fsynced data, non-durable truncation, rename durable before its data) is materialised, with an earlier run's cache content and, in half the scenarios, debris of an earlier interrupted write present; a fresh RateLoader answers look-ups over each state and every returned rate must be the published one for the right day (wrong-day answers that the uncrashed cache gives too are not attributed to the crash). Real SIGKILLs injected at each write syscall must land in a modelled state. thorough enumerates every byte offset.",
+         "Ordered-prefix persistence inside one file; one traced run is representative of the deterministic write procedure.", "C14"),
 }
 PENDING = {}
 
